@@ -64,7 +64,10 @@ def charge_case(draw, tier):
     shape = draw(gen.shape2(1, 12))
     k = draw(st.integers(0, 2**31 - 1))
     img = np.random.default_rng(k).uniform(0, 1000, size=(nw,) + shape)
+    if draw(st.sampled_from([False, False, True])):
+        img = np.round(img).astype(np.int64)           # integer photon counts
     return {"wave_nm": wave_nm, "img": img, "qe": draw(qe_desc(wave_nm)), "qe2": draw(qe_desc(wave_nm)),
+            "wave_as_list": draw(st.booleans()),
             "waveunit": draw(st.sampled_from(UNITS)), "squeeze": nw == 1 and draw(st.booleans()),
             "a": draw(gen.finite(-2, 2)), "b": draw(gen.finite(-2, 2))}
 
@@ -83,6 +86,9 @@ def collect_charge(case, ctx):
             "2d_input" if case["squeeze"] else None)
     ctx.nontrivial_if(len(wave_nm) >= 2 and (d["kind"] != "spectrum" or d["unit"] != wu))
     arg = img[0] if case["squeeze"] else img
+    if case.get("wave_as_list"):
+        wave = wave.tolist()
+    ctx.tag("int_cube" if img.dtype.kind == "i" else None, "wave_list" if case.get("wave_as_list") else None)
     snap = None
     if d["kind"] == "spectrum":
         snap = (qe.wave.copy(), qe.value.copy(), qe.waveunit)
